@@ -78,6 +78,51 @@ run_task = Contract(
 UNITS = [run_task]
 
 
+def run_task_replay(inputs, clause):
+    """real run_tagging_task driven by a fake molecule iterator class: one molecule whose cut site is the counter-model's"""
+    from pyvc.contract import import_real
+    fn = import_real(FG, 'run_tagging_task')
+    w = inputs.get('witness', {})
+    mol = next((v for k, v in w.items() if isinstance(v, dict) and v.get('__obj__') == 'MolStub'), None)
+    g = inputs.get('ghost', {})
+    has_site, site = g.get('MOL_HAS_SITE', True), g.get('MOL_SITE', [inputs['contig'], inputs['start']])
+    written = []
+
+    class Frag:
+        def get_site_location(self):
+            return (site[0], int(site[1])) if has_site else None
+
+        def get_read_group(self, *a):
+            return 'rg'
+
+    class Mol:
+        def __iter__(self):
+            return iter([Frag()])
+
+        def set_meta(self, *a):
+            pass
+
+        def write_tags(self):
+            pass
+
+        def write_pysam(self, out, **k):
+            written.append(self)
+
+    def iterator_class(alignments, **k):
+        return [Mol()]
+    args = {k: inputs[k] for k in ('contig', 'start', 'end', 'fetch_start', 'fetch_end')}
+    res = fn('alignments', 'output', molecule_iterator_class=iterator_class, molecule_iterator_args={}, enable_prefetch=False, **args)
+    owned = bool(has_site and site[0] == inputs['contig'] and inputs['start'] <= int(site[1]) < inputs['end'])
+    obs = {'outcome': 'return', 'value': {'written': len(written), 'reported': res['total_molecules_written'], 'owned': owned,
+                                          'site': [site[0], site[1]] if has_site else None, **args}}
+    if (len(written) == 1) != owned or res['total_molecules_written'] != len(written):
+        return {'status': 'confirmed', 'observed': obs, 'failed': [{'clause': 'written_iff_its_site_lies_in_this_bin'}]}
+    return {'status': 'not-reproduced', 'observed': obs}
+
+
+run_task.replay = run_task_replay
+
+
 # the same loop with a read-group dictionary: every record a job writes carries a read group the job declares
 RGDEF = z3.Function('read_group_definition', z3.StringSort(), z3.StringSort())
 
@@ -114,6 +159,7 @@ run_task_rg.name = 'run_tagging_task[region mode, read groups]'
 run_task_rg.params = dict(run_task.params)
 run_task_rg.params['read_groups'] = lambda e, n: {}
 run_task_rg.setup = task_rg_setup
+run_task_rg.replay = None
 run_task_rg.loops = {1: LoopSpec(
     inv={'count_matches_writes': 'total_molecules_written == len(GHOST["written"])'},
     types={'molecule': 'frame', 'fragment': 'frame', 'r': 'frame', 'cut_site_contig': 'frame', 'cut_site_pos': 'frame',
